@@ -113,6 +113,42 @@ def eval_point(pt, R):
             return
         R.check(obs.shape == ref.shape and not np.iscomplexobj(obs) and close(obs, ref, 1e-9, 0.0), 'arma2psd', feats, pt, obs, ref,
                 'arma2psd != (rho/T) |B(f)|^2 / |A(f)|^2 on the grid k/NFFT', outs=(obs,), err=relerr(obs, ref) if obs.shape == ref.shape else None)
+        # documented alternative output order: sides='centerdc' = the same values on the centred grid (k - NFFT//2)/NFFT
+        R.calls()
+        try:
+            obs_c = np.asarray(arma2psd(a, b, rho=rho, T=T, NFFT=nf, sides='centerdc'))
+            ref_c = np.array([ref[(k - nf // 2) % nf] for k in range(nf)])
+            R.check(obs_c.shape == ref_c.shape and close(obs_c, ref_c, 1e-9, 0.0), 'arma2psd', dict(feats, sides='centerdc', nfft='odd' if nf % 2 else 'even'), pt, obs_c, ref_c,
+                    "arma2psd(sides='centerdc') is not the model spectrum on the centred grid (k - NFFT//2)/NFFT")
+        except Exception as e:
+            R.viol('arma2psd', dict(feats, sides='centerdc', exc=type(e).__name__), pt, repr(e), None, "arma2psd(sides='centerdc') raised inside its domain")
+        # coefficient containers: single-precision arrays and plain lists hold the same model (rho at the small end of the float range)
+        def narrow(v, aslist):
+            if v is None:
+                return None, None
+            v32 = v.astype(np.complex64 if np.iscomplexobj(v) else np.float32)
+            wide = v32.astype(complex)
+            return (v.tolist() if aslist else v32), (np.asarray(v, dtype=complex) if aslist else wide)
+        for aslist in (False, True):
+            a2, aw = narrow(a, aslist)
+            b2, bw = narrow(b, aslist)
+            Af2 = np.ones(nf, dtype=complex)
+            Bf2 = np.ones(nf, dtype=complex)
+            for k in range(la):
+                Af2 = Af2 + aw[k] * w ** (k + 1)
+            for k in range(lb):
+                Bf2 = Bf2 + bw[k] * w ** (k + 1)
+            if np.min(np.abs(Af2)) < 1e-6:
+                continue
+            rho2 = rho * 1e-60
+            ref2 = rho2 / T * np.abs(Bf2) ** 2 / np.abs(Af2) ** 2
+            R.calls()
+            try:
+                obs2 = np.asarray(arma2psd(a2, b2, rho=rho2, T=T, NFFT=nf))
+                R.check(obs2.shape == ref2.shape and close(obs2, ref2, 1e-9, 0.0), 'arma2psd', dict(feats, container='list' if aslist else 'single-precision array'), pt, obs2, ref2,
+                        'arma2psd on list / float32 / complex64 coefficients (rho = 1e-60 rho) != (rho/T) |B|^2/|A|^2 of those coefficients')
+            except Exception as e:
+                R.viol('arma2psd', dict(feats, container='list' if aslist else 'single-precision array', exc=type(e).__name__), pt, repr(e), None, 'arma2psd raised on list / single-precision coefficients')
         return
     if pt['kind'] in ('burgcrit', 'daniell'):
         import spectrum
@@ -175,6 +211,21 @@ def eval_point(pt, R):
         R.check(Pt.shape == exp.shape and close(Pt, exp, 1e-9, 0.0) and abs(df - fs / nf) <= 1e-12 * fs / nf, 'scale_by_freq', feats, ptf, Pt, exp,
                 'scale_by_freq=True is not the unscaled estimate multiplied once by 2 pi/df, df = sampling/NFFT', outs=(Pf, fs),
                 err=relerr(Pt, exp) if Pt.shape == exp.shape else None)
+        if cls in ('Periodogram', 'pcorrelogram') and fs in (4.0, 1000.0):
+            # the method form <object>.periodogram() takes sampling and scale_by_freq from the object
+            R.calls()
+            try:
+                import spectrum
+                om = spectrum.Periodogram(x, NFFT=NFFT, sampling=fs, scale_by_freq=True, window=o.get('window', 'hann')) if cls == 'Periodogram' else \
+                    spectrum.FourierSpectrum(x, NFFT=NFFT, sampling=fs, scale_by_freq=True, window='hann', detrend=None)
+                pm_ref = np.asarray(spectrum.Periodogram(x, NFFT=NFFT, sampling=fs, scale_by_freq=False, window=o.get('window', 'hann') if cls == 'Periodogram' else 'hann').psd)
+                om.periodogram()
+                pm = np.asarray(om.psd)
+                expm = pm_ref * 2 * np.pi / (fs / nf)
+                R.check(pm.shape == expm.shape and close(pm, expm, 1e-9, 0.0), 'scale_by_freq', dict(feats, form='method'), ptf, pm, expm,
+                        '<object>.periodogram() with scale_by_freq=True is not the unscaled periodogram multiplied once by 2 pi/df, df = sampling/NFFT')
+            except Exception as e:
+                R.viol('scale_by_freq', dict(feats, form='method', exc=type(e).__name__), ptf, repr(e), None, '<object>.periodogram() raised')
         if fs in (4.0, 0.02):
             from ..ref import sides as rs
             for sd in (('onesided', 'twosided', 'centerdc') if not cplx else ('twosided', 'centerdc')):
